@@ -25,7 +25,8 @@ func xmlAttrEscape(s string) string {
 
 var c16ids = []string{"b3c2-uuid-4f", "", "a<b", "'q'", "é", strings.Repeat("i", 200), "with two  spaces", "a&b", "0"}
 var c16replies = []string{"handshake", "error-conflict", "error-host-unknown", "error-not-authorized", "message", "features", "malformed", "close",
-	"handshake-cut", "handshake-then-stream-close", "handshake-bad-entity", "handshake-bad-end-tag"}
+	"handshake-cut", "handshake-then-stream-close", "handshake-bad-entity", "handshake-bad-end-tag",
+	"unknown-namespace-then-handshake", "unknown-name-then-handshake", "handshake-other-namespace"}
 
 func c16reply(r string) string {
 	switch r {
@@ -52,6 +53,13 @@ func c16reply(r string) string {
 		return "<handshake>&bogus;</handshake>"
 	case "handshake-bad-end-tag":
 		return "<handshake>abc</handshak>"
+	// something else first, then what would have been the right answer: the answer was not a handshake
+	case "unknown-namespace-then-handshake":
+		return "<csi xmlns='urn:xmpp:csi:0'/><handshake/>"
+	case "unknown-name-then-handshake":
+		return "<blob/><handshake/>"
+	case "handshake-other-namespace":
+		return "<handshake xmlns='urn:other'/>"
 	}
 	return ""
 }
